@@ -1,6 +1,6 @@
 (** C19 — Student-t proposal fit is well-posed and equivariant. Statements only (MathComp, any real field). *)
-From mathcomp Require Import all_ssreflect all_algebra.
-From Tempest Require Import Proofs.Volume Proofs.Student Link.Student.
+From mathcomp Require Import all_ssreflect all_fingroup all_algebra.
+From Tempest Require Import Proofs.Volume Proofs.Student Proofs.StudentInit Link.Student.
 Import GRing.Theory Num.Theory.
 Local Open Scope ring_scope.
 
@@ -36,3 +36,35 @@ Theorem C19_weights_positive :
   forall (F : realFieldType) (n d : nat) (nu : F) (de : {ffun 'I_n -> F}) i, 0 < nu -> 0 <= de i -> 0 < wgt d nu de i.
 Proof. move=> F n d nu de i. exact: wgt_pos. Qed.
 Print Assumptions C19_weights_positive.
+
+(** ---- the starting point (coordinate medians; biased covariance + diag(biased variances)/n), which is also the
+    RETURNED value whenever the root bracket of the nu update has no sign change (Link: link_ecme, link_fallback) ---- *)
+
+(** equivariance under x_j |-> a_j x_(s j) + b_j : per-coordinate positive scalings, translations and permutations of
+    the coordinates, all at once, for every data set *)
+Theorem C19_init_equivariant :
+  forall (F : realFieldType) (n d : nat) (a b : 'rV[F]_d) (s : 'S_d) (x : 'I_n -> 'rV[F]_d),
+  (0 < n)%N -> (forall j, 0 < a 0 j) ->
+  (forall j, mu0 (tr a b s x) 0 j = a 0 j * mu0 x 0 (s j) + b 0 j)
+  /\ (forall j k, Sigma0 (tr a b s x) j k = a 0 j * a 0 k * Sigma0 x (s j) (s k)).
+Proof. move=> F n d a b s x. exact: init_equivariant. Qed.
+Print Assumptions C19_init_equivariant.
+
+Theorem C19_init_location_in_box :
+  forall (F : realFieldType) (n d : nat) (x : 'I_n -> 'rV[F]_d) (j : 'I_d) (lo hi : F),
+  (0 < n)%N -> (forall i, lo <= x i 0 j <= hi) -> lo <= mu0 x 0 j <= hi.
+Proof. move=> F n d x j lo hi. exact: init_location_in_box. Qed.
+Print Assumptions C19_init_location_in_box.
+
+(** symmetric, and positive definite as soon as no coordinate is constant (non-degenerate data) *)
+Theorem C19_init_scale_spd :
+  forall (F : realFieldType) (n d : nat) (x : 'I_n -> 'rV[F]_d),
+  (forall j k, Sigma0 x j k = Sigma0 x k j)
+  /\ ((0 < n)%N -> (forall j, exists i1 i2, x i1 0 j != x i2 0 j) ->
+      forall v : 'rV[F]_d, v != 0 -> 0 < \sum_j \sum_k v 0 j * Sigma0 x j k * v 0 k).
+Proof.
+  move=> F n d x; split; first exact: init_scale_symmetric.
+  move=> npos nd v vnz. apply: init_scale_posdef => // j.
+  case: (nd j) => i1 [i2 ne]. exact: (var_pos npos ne).
+Qed.
+Print Assumptions C19_init_scale_spd.
